@@ -103,7 +103,7 @@ def gen_config(rng, small: bool = False, focus: str | None = None) -> dict:
     for i in range(n):
         kind = rng.choice(KINDS)
         nelem = rng.choice([0, 1, 2, 3, 5, 8, 13, 64, 300, 4097, 9000] if not small else [0, 1, 3, 8])
-        g = rng.choice([0, 0, 0, 1, 2])
+        g = rng.choice([0, 0, 0, 1, 2, 3])
         name = f"w{i}"
         # sibling subgraphs (and a subgraph vs the main graph) may legally reuse an initializer name
         others = [s for s in inits if s["g"] != g and all(t["name"] != s["name"] for t in inits if t["g"] == g)]
@@ -114,7 +114,7 @@ def gen_config(rng, small: bool = False, focus: str | None = None) -> dict:
         "inits": inits,
         "threshold": rng.choice([0, 0, 1, 4, 16, 256, 5000]),
         "max_shard": rng.choice([None, None, 1, 7, 64, 1000, 8192, 20000]),
-        "alignment": rng.choice([None, None, 1, 512, 4096, 8192, 65536]),
+        "alignment": rng.choice([None, None, 1, 512, 4096, 8192, 65536, 4097, 10000, 12288, 20480]),
         "align_threshold": rng.choice([0, 1, 16, 300, 1048576]),
         "max_workers": rng.choice([None, 1, 2, 4]),
         "backend": "safetensors" if rng.random() < 0.25 else "raw",
@@ -128,7 +128,7 @@ def gen_config(rng, small: bool = False, focus: str | None = None) -> dict:
         for s in cfg["inits"]:
             s["nelem"] = rng.choice([300, 4097, 9000])
             s["kind"] = rng.choice(["mem", "mem16", "lazy", "proto"])
-        cfg.update(threshold=0, alignment=rng.choice([1, 512, 4096]), align_threshold=rng.choice([0, 1, 16, 300]),
+        cfg.update(threshold=0, alignment=rng.choice([1, 512, 4096, 4097, 6000, 12288]), align_threshold=rng.choice([0, 1, 16, 300]),
                    max_shard=rng.choice([20000, 30000, 50000]), max_workers=rng.choice([1, 2, 3, 4, 8]), backend="raw")
     if focus == "resave" or (focus is None and cfg["backend"] == "raw" and cfg["max_shard"] is None
                              and rng.random() < 0.3):
@@ -145,7 +145,7 @@ def _build_model(ir, cfg, workdir):
     import random
     rng = random.Random(cfg["tseed"])
     dup_pool: list = []
-    per_graph = {0: [], 1: [], 2: []}
+    per_graph = {0: [], 1: [], 2: [], 3: []}
     expect, objs = {}, []
     for i, spec in enumerate(cfg["inits"]):
         if "g" not in spec:                      # corpus / known-finding witnesses in the older format
@@ -160,8 +160,16 @@ def _build_model(ir, cfg, workdir):
     x = ir.Value(name="x", type=F, shape=ir.Shape([1]))
     cond = ir.Value(name="cond", type=ir.TensorType(ir.DataType.BOOL), shape=ir.Shape([]))
     so = ir.Value(name="so", type=F, shape=ir.Shape([1]))
-    sub = ir.Graph([], [so], nodes=[ir.Node("", "Identity", [x], outputs=[so], name="sn")],
-                   initializers=per_graph[1], name="then")
+    # "deep": an If nested inside the then-branch (initializers two subgraph levels below the main graph)
+    do = ir.Value(name="do", type=F, shape=ir.Shape([1]))
+    deep = ir.Graph([], [do], nodes=[ir.Node("", "Identity", [x], outputs=[do], name="dn")],
+                    initializers=per_graph[3], name="deep")
+    de = ir.Value(name="de", type=F, shape=ir.Shape([1]))
+    deep_else = ir.Graph([], [de], nodes=[ir.Node("", "Identity", [x], outputs=[de], name="den")], name="deepelse")
+    inner_if = ir.Node("", "If", [cond], attributes=[ir.AttrGraph("then_branch", deep),
+                                                     ir.AttrGraph("else_branch", deep_else)],
+                       outputs=[so], name="inner_if")
+    sub = ir.Graph([], [so], nodes=[inner_if], initializers=per_graph[1], name="then")
     so2 = ir.Value(name="so2", type=F, shape=ir.Shape([1]))
     sub2 = ir.Graph([], [so2], nodes=[ir.Node("", "Identity", [x], outputs=[so2], name="sn2")],
                     initializers=per_graph[2], name="else")
@@ -174,7 +182,7 @@ def _build_model(ir, cfg, workdir):
 
 def _graph_index(model):
     """graph object -> 0 (main) / 1 (then) / 2 (else), by graph name"""
-    return {id(gr): {"g": 0, "then": 1, "else": 2}[gr.name] for gr in model.graphs()}
+    return {id(gr): {"g": 0, "then": 1, "else": 2, "deep": 3, "deepelse": 4}[gr.name] for gr in model.graphs()}
 
 
 def _save(ir, model, cfg, path, threshold, workers, callback=None):
@@ -266,10 +274,13 @@ def run_impl(cfg: dict, workdir: str) -> dict:
     ok_ranges = True
     for key, ent in rb.items():
         if ent["external"]:
-            with open(os.path.join(outdir, ent["location"]), "rb") as f:
-                f.seek(ent["offset"])
-                if f.read(ent["length"]) != expect[key]["bytes"]:
-                    ok_ranges = False
+            try:
+                with open(os.path.join(outdir, ent["location"]), "rb") as f:
+                    f.seek(ent["offset"] or 0)
+                    if f.read(ent["length"]) != expect[key]["bytes"]:
+                        ok_ranges = False
+            except OSError:
+                ok_ranges = False
     obs["file_bytes_ok"] = ok_ranges
     # small data files: keep the bytes and the (offset, bytes) jobs, to validate the file-image model
     images = []
@@ -434,7 +445,7 @@ def correspondence_align(ck) -> list[dict]:
     rng = ck.rng
     grid_cur = [0, 1, 4095, 4096, 4097, 65535, 65536, 70000, 1 << 20, (1 << 32) + 5]
     grid_sz = [0, 1, 100, 4096, 1 << 20, (1 << 20) + 1]
-    grid_al = [None, 1, 2, 512, 4096, 4097, 65536, 100000]
+    grid_al = [None, 1, 2, 512, 4096, 4097, 10000, 12288, 20480, 65536, 100000]
     grid_thr = [0, 100, 1 << 20]
     rows = []
     for cur in grid_cur:
